@@ -14,12 +14,16 @@ pub enum HK {
     None,
     NonMatching,
     Observers,
+    Sparse,
 }
 
 pub struct Case {
     pub input: Vec<u8>,
     pub doc: Option<Doc>,
     pub hk: HK,
+    /// for HK::Sparse: generated observer set (selectors that match only some tags: the parser
+    /// switches between tag-scan and lexer mode inside the document)
+    pub sparse: Option<Cfg>,
     pub random: Vec<Vec<usize>>,
     pub long_tail: usize,
 }
@@ -32,6 +36,7 @@ pub fn cfg_for(hk: HK) -> Cfg {
             cfg.sels.push(SelSpec { sel: "nomatch-zz".into(), el: true, end_tag: true, text: true, comments: true, ops: vec![] });
             cfg.sels.push(SelSpec { sel: "nomatch-zz > b".into(), el: true, ..Default::default() });
         }
+        HK::Sparse => {}
         HK::Observers => {
             cfg.docs.push(DocSpec { doctype: true, comments: true, text: true, end: true, ops: vec![] });
             cfg.sels.push(SelSpec { sel: "*".into(), el: true, end_tag: true, ..Default::default() });
@@ -42,7 +47,7 @@ pub fn cfg_for(hk: HK) -> Cfg {
 
 pub fn decode(tape: &[u16]) -> Case {
     let mut t = Tape::new(tape);
-    let hk = *t.pick(&[HK::None, HK::None, HK::NonMatching, HK::Observers]);
+    let hk = *t.pick(&[HK::None, HK::None, HK::NonMatching, HK::Observers, HK::Sparse]);
     let fr: Vec<Vec<u16>> = (0..2).map(|_| { let k = t.range(1, 5); (0..k).map(|_| t.frac()).collect() }).collect();
     let use_doc = t.chance(2, 3);
     // occasionally a long run of text after the generated prefix (withheld text would show)
@@ -63,7 +68,14 @@ pub fn decode(tape: &[u16]) -> Case {
         (input_in(&mut t, &InputOpts { max_frags: 10, ..Default::default() }, encoding_rs::UTF_8), None)
     };
     let random = fr.iter().map(|f| { let mut v: Vec<usize> = f.iter().map(|x| frac_to_pos(*x, input.len())).collect(); v.sort(); v }).collect();
-    Case { input, doc: d, hk, random, long_tail }
+    let sparse = if hk == HK::Sparse {
+        let mut cfg = Cfg::default();
+        crate::gens::handlers::observers(&mut t, &mut cfg, 3, 1);
+        Some(cfg)
+    } else {
+        None
+    };
+    Case { input, doc: d, hk, sparse, random, long_tail }
 }
 
 fn suffix_len(s: &[u8], pred: impl Fn(&[u8]) -> bool, max: usize) -> usize {
@@ -169,7 +181,7 @@ pub fn allowed(d: &Doc, k: usize, hk: HK) -> usize {
 }
 
 pub fn check_case(c: &Case, st: &mut Stats) -> PResult {
-    let cfg = cfg_for(c.hk);
+    let cfg = c.sparse.clone().unwrap_or_else(|| cfg_for(c.hk));
     let mut input = c.input.clone();
     let n0 = input.len();
     if c.long_tail > 0 {
@@ -290,14 +302,14 @@ impl Prop for C09 {
             name: "bogus-comment-after-end-tag-open",
             finding: Some("C09-bogus-comment-end-tag-open-unmark"),
             what: "with no handlers '</ ' (a bogus comment) followed by kilobytes of text must not be withheld until the next '>'",
-            run: Box::new(|st| check_case(&Case { input: b"a</".to_vec(), doc: None, hk: HK::None, random: vec![], long_tail: 3000 }, st)),
+            run: Box::new(|st| check_case(&Case { input: b"a</".to_vec(), doc: None, hk: HK::None, sparse: None, random: vec![], long_tail: 3000 }, st)),
         }, FixedCase {
             name: "escaped-script-end-tag-candidate",
             finding: Some("C09-escaped-end-tag-name-unmark"),
             what: "after '<script><!--</scrip-' (abandoned end tag candidate in escaped script data) following text must not be withheld",
             run: Box::new(|st| {
                 let d = build(&[(TK::Start, "<script>", "script", Ns::Html, ""), (TK::Text, "<!--</scrip-", "<!--</scrip-", Ns::Html, "ScriptData")]);
-                check_case(&Case { input: d.bytes.clone(), doc: Some(d), hk: HK::None, random: vec![], long_tail: 3000 }, st)
+                check_case(&Case { input: d.bytes.clone(), doc: Some(d), hk: HK::None, sparse: None, random: vec![], long_tail: 3000 }, st)
             }),
         }]
     }
@@ -318,6 +330,6 @@ impl Prop for C09 {
     }
     fn describe(&self, tape: &[u16]) -> Value {
         let c = decode(tape);
-        json!({"input": show(&c.input), "input_bytes": c.input, "handlers": format!("{:?}", c.hk), "random": c.random, "long_tail": c.long_tail, "layout": c.doc.map(|d| d.toks.iter().map(|t| format!("{:?} {}..{} {}", t.kind, t.start, t.end, t.text_type)).collect::<Vec<_>>())})
+        json!({"input": show(&c.input), "input_bytes": c.input, "handlers": format!("{:?}", c.hk), "sparse_handlers": c.sparse.as_ref().map(|x| x.to_json()), "random": c.random, "long_tail": c.long_tail, "layout": c.doc.map(|d| d.toks.iter().map(|t| format!("{:?} {}..{} {}", t.kind, t.start, t.end, t.text_type)).collect::<Vec<_>>())})
     }
 }
